@@ -51,8 +51,22 @@ func miscFrame(id uint32, variant int, kind string, root string, handles []strin
 		}
 		return "/" + s
 	}
-	n := 17
+	n := 23
 	switch variant % n {
+	// cross-kind requests on handles of every kind (handles[len-3] read-only file, [len-2] write-only file, [len-1] directory):
+	// each must be answered once, in order, with a type that is legal for the REQUEST
+	case 17:
+		return fIDStr(tReaddir, id, handles[len(handles)-3])
+	case 18:
+		return fIDStr(tReaddir, id, handles[len(handles)-2])
+	case 19:
+		return fRead(id, handles[len(handles)-1], 0, 8)
+	case 20:
+		return fWrite(id, handles[len(handles)-1], 0, []byte("x"))
+	case 21:
+		return fRead(id, handles[len(handles)-2], 0, 8)
+	case 22:
+		return fWrite(id, handles[len(handles)-3], 0, []byte("x"))
 	case 0:
 		return fIDStr(tStat, id, p("aux"))
 	case 1:
@@ -145,6 +159,19 @@ func runPipeline(t testing.TB, tr *tracer, o srvOpts, sc scenario, salt int, dif
 			t.Fatalf("setup open failed: %+v", f)
 		}
 		handles[i] = f.Handle
+	}
+	// three more handles for cross-kind requests: a read-only file, a write-only file, a directory
+	for i, fr := range [][]byte{fOpen(20, fpath(1), 1, wattrs{}), fOpen(21, fpath(1), 2, wattrs{}), fIDStr(tOpendir, 22, func() string {
+		if o.kind == "server" {
+			return filepath.Join(root, "d")
+		}
+		return "/d"
+	}())} {
+		f, ok := s.call(fr)
+		if !ok || f.Typ != tHandle {
+			t.Fatalf("setup open %d failed: %+v", i, f)
+		}
+		handles = append(handles, f.Handle)
 	}
 	tr.emit("Setup", kv{"handles": handles})
 	base := s.order // orders used by the setup
